@@ -133,6 +133,21 @@ func (x *Exec) callCommon(fr *frame, s *State, c *ssa.CallCommon, fnv Value, arg
 		bindings = fnv.Bind
 	}
 	if callee == nil {
+		// a call through a local function variable may have an assumed contract ("localfn <name>")
+		if u, ok := c.Value.(*ssa.UnOp); ok && u.Op == token.MUL {
+			if a, ok := u.X.(*ssa.Alloc); ok && a.Comment != "" {
+				key := "localfn " + a.Comment
+				x.atCallCheck(fr, s, key)
+				if ct := x.E.Contracts[key]; ct != nil {
+					ct.Used = true
+					var names []string
+					for i := 0; i < sig.Params().Len(); i++ {
+						names = append(names, fmt.Sprintf("arg%d", i))
+					}
+					return x.applyContract(fr, s, ct, nil, a.Comment, args, names, sig, pos)
+				}
+			}
+		}
 		// a call through a value of a named function type may have an assumed contract
 		if n, ok := c.Value.Type().(*types.Named); ok {
 			if ct := x.E.Contracts["functype "+n.Obj().Name()]; ct != nil {
